@@ -450,7 +450,7 @@ func concurrent(dir string, seed int64, runs int, trace *util.NDJSON) {
 			sched.Quiet(true)
 			h.observe(engine)
 			sched.Quiet(false)
-			deadline := time.Now().Add(3 * time.Second)
+			deadline := time.Now().Add(15 * time.Second)
 			for _, c := range cons {
 				want := 0
 				for _, e := range h.evs {
@@ -466,7 +466,7 @@ func concurrent(dir string, seed int64, runs int, trace *util.NDJSON) {
 						break
 					}
 					if time.Now().After(deadline) {
-						finding("stall", "a consumer blocked in Next has not received an event committed more than 3 s ago (no further commit is coming)",
+						finding("stall", "a consumer blocked in Next has not received an event committed more than 15 s ago (no further commit is coming)",
 							V{"run": run, "round": round, "scope": c.st.scope, "delivered": got, "committed": want, "stacks": stacks()})
 						break
 					}
@@ -487,10 +487,10 @@ func concurrent(dir string, seed int64, runs int, trace *util.NDJSON) {
 			}
 			select {
 			case <-c.done:
-				if time.Since(start) > time.Second {
+				if time.Since(start) > 5*time.Second {
 					finding("stall", "a blocked Next returned late after close / cancellation", V{"run": run, "ms": time.Since(start).Milliseconds()})
 				}
-			case <-time.After(3 * time.Second):
+			case <-time.After(15 * time.Second):
 				finding("stall", "a blocked Next was not woken by "+map[bool]string{true: "context cancellation", false: "Close"}[i%2 == 0], V{"run": run, "stacks": stacks()})
 			}
 			c.cancel()
